@@ -68,6 +68,7 @@ type concRun struct {
 	closing  bool
 	done     []bool
 	shared   map[int]*sharedSess
+	uploaded map[string]map[string]bool // repo -> blob digests whose upload was acknowledged
 }
 
 func (c *concRun) stamp() int64 { c.seq++; return c.seq }
@@ -438,6 +439,13 @@ func (c *concRun) cUpload(client int, repo string, o *Obj, op Op) {
 	}
 	r = w.do(reqSpec{method: "PUT", path: u.EscapedPath(), query: q.Encode(), body: body, repos: []string{repo}})
 	if r.Code == 201 {
+		if c.uploaded == nil {
+			c.uploaded = map[string]map[string]bool{}
+		}
+		if c.uploaded[repo] == nil {
+			c.uploaded[repo] = map[string]bool{}
+		}
+		c.uploaded[repo][digestOf("sha256", data)] = true
 		w.x.out.probe("conc-upload-201")
 	}
 }
@@ -868,6 +876,18 @@ func (c *concRun) quiescentChecks() {
 			}
 		}
 	}
+	// acknowledged uploads are there (only where no collection can have taken an unreferenced blob)
+	if !w.naturalGC() {
+		for _, repo := range sortedKeys(c.uploaded) {
+			for _, d := range sortedKeys(c.uploaded[repo]) {
+				r := w.do(reqSpec{method: "HEAD", path: "/v2/" + repo + "/blobs/" + d, repos: []string{repo}})
+				if r.Code != 200 {
+					w.x.viol([]string{"C11"}, "conc.lost-update", "blob", fmt.Sprintf("%s: the upload of %s was acknowledged, nothing can have collected it, and it answers %d once everything is quiet", repo, d, r.Code))
+					return
+				}
+			}
+		}
+	}
 	w.x.out.probe("conc-quiescent-checked")
 }
 
@@ -1077,6 +1097,22 @@ func planC11(prop string, seed uint64, tier string, idx int) *Plan {
 			ops = out
 		}
 		clients = append(clients, ops)
+	}
+	if !gc && g.r.chance(50) {
+		// a repository nobody has touched yet: the first requests to it arrive together
+		g.storeKnob("dir", "mem", "mem", "memdir")
+		g.p.Repos = append(g.p.Repos, "fresh/new")
+		fr := len(g.p.Repos) - 1
+		g.p.Profile += ", first requests to a new repository"
+		for c := range clients {
+			first := Op{K: "blob", Repo: fr, Obj: cg.blobs[g.r.intn(len(cg.blobs))], Chunks: []int{g.r.between(1, 200), g.r.between(0, 200)}}
+			if g.r.chance(70) {
+				clients[c] = append([]Op{first}, clients[c]...)
+			}
+			if g.r.chance(50) {
+				clients[c] = append(clients[c], Op{K: "blob", Repo: fr, Obj: cg.blobs[g.r.intn(len(cg.blobs))], Chunks: []int{g.r.between(1, 200)}})
+			}
+		}
 	}
 	return coldStart(cg.finishConc(prop, clients), seed)
 }
